@@ -417,7 +417,13 @@ fn join_case(front: Front, reg: Reg, dl_fixed: Option<u8>, rng: &mut Prng, col: 
                         }
                     } else if reg.clearly_valid_freq(hz) {
                         match ch {
-                            Some(c) if c.ul_frequency == hz && c.rx1_frequency == hz && enabled => col.event("cflist_type0_applied"),
+                            Some(c) if c.ul_frequency == hz && c.rx1_frequency == hz && enabled => {
+                                col.event("cflist_type0_applied");
+                                // CFList channels are DR0..DR5 channels (TS001 / RP002: "usable for DR0 to DR5")
+                                if (c.dr_min, c.dr_max) != (0, 5) {
+                                    col.violation(&format!("C11|cflist|channel-dr-range|{}-{}", c.dr_min, c.dr_max), "a channel created from the CFList does not cover DR0..DR5", json!({"ctx": ctx("cf"), "index": j + i, "channel": format!("{:?}", c)}));
+                                }
+                            }
                             _ => col.violation(&format!("C11|cflist|inband-not-installed|{}", reg.name()), "an in-band CFList frequency was not installed as an enabled channel", json!({"ctx": ctx("cf"), "index": j + i, "freq": hz, "channel": format!("{:?}", ch), "enabled": enabled})),
                         }
                     } else if !reg.in_band(hz) {
